@@ -236,6 +236,21 @@ def r3_port_kinds(ctx, nf) -> None:
     """stated over path summaries: `match port` and isinstance/offset tests, statements and conditional expressions coincide"""
     mod = ctx.program.module(OPS)
     s = sym("self")
+    # which definition answers: a dataflow op's port_kind / port_type is its own, or the one of a DATAFLOW base -- a default put on a
+    # mixin that comes earlier in the bases (class DFG(DfParentOp, DataflowOp)) would answer instead of DataflowOp's
+    dfo = mod.classes.get("DataflowOp")
+    if dfo is None:
+        ctx.broken("anchor vanished: hugr.ops.DataflowOp")
+    for cname, c in sorted(mod.classes.items()):
+        if c is dfo or dfo not in c.mro:
+            continue
+        for meth in ("port_kind", "port_type"):
+            definer = next((k for k in c.mro if hasattr(k, "methods") and meth in k.methods), None)
+            ok = definer is not None and (definer is c or dfo in definer.mro)
+            ctx.check(ok, "C06.R3", f"hugr.ops.{cname}.{meth}: answered by a dataflow definition", c.module.path, c.node.lineno,
+                      f"{cname} is a dataflow op: its {meth} must be its own or DataflowOp's (value ports typed by the signature, order port), "
+                      f"not the one of `{getattr(definer, 'name', '?')}` that precedes DataflowOp among its bases", c.node,
+                      expected="DataflowOp (or an override in a dataflow class)", found=getattr(definer, "name", "none"))
     for cname, arms in KIND_ARMS.items():
         c = mod.classes[cname]
         m = c.find_method("port_kind")[1]
